@@ -10,6 +10,7 @@
    [AResumeReadFail t]: the region thread t runs next performs a store read, and that read fails with a transient
    error (not a not-found error): what the code does then, up to the return of the API call, is ONE transition
    (the yield point that follows a failed read decides nothing and holds nothing new: see [resume_read_fail]).
+   [AClose] / [ACloseOk]: graceful shutdown of the commander (Batcher.Close), see [close].
    The store answers every read from the persisted log (as the SQL projection is specified to, C04).
    Requests are posting-mode transactions over one asset (general scripts reduce to them by C01/C09),
    reverts, and metadata writes. Models the tree WITH the engine repairs. Definitions only. *)
@@ -625,8 +626,24 @@ Definition crash (s : state) : state :=
                    end)) (threads s);
      published := published s |}.
 
+(* ---- graceful shutdown: Commander.Close() = Batcher.Close() = job.Runner.Close() ------------------------------------
+   The stop branch of Runner.Run: close(jobs); StopAndWait(); close(terminatedJobs); close(done); return.
+   The worker that is inside the store call finishes it (StopAndWait): the batch is written, or the write fails (the
+   worker's panic is recovered into jobsErrors, which nobody reads any more). Either way the job's Terminated() callbacks
+   are NOT run (the job goes into terminatedJobs, closed unread): nobody of that batch is acknowledged by the close.
+   Entries still queued in the batcher are never handed to the store and never acknowledged. Requests parked anywhere
+   stay parked for ever: the generation is over, exactly as after a crash; the next commander initialises from the disk.
+   [AClose]: nothing is in the store call, or its write fails: state-wise this IS [crash].
+   [ACloseOk]: a batch is inside the store call and its write succeeds, then the generation ends: this IS the
+   composition of [persist_ok] and [crash] (the batch [persist_ok] would hand to the worker next is dropped by the crash,
+   as the close drops the queue). No acknowledgement and no event results from a close. *)
+Definition close (s : state) : state := crash s.
+Definition close_ok (s : state) : option state :=
+  match persist_ok s with Some s' => Some (crash s') | None => None end.
+
 Inductive action := AStart (t : tid) (rq : request) | AResume (t : tid) | APersistOk | APersistFail | ACrash
-                  | ACancel (t : tid) | AResumeCancelled (t : tid) | AResumeReadFail (t : tid).
+                  | ACancel (t : tid) | AResumeCancelled (t : tid) | AResumeReadFail (t : tid)
+                  | AClose | ACloseOk.
 
 Definition step (s : state) (a : action) : option state :=
   match a with
@@ -638,6 +655,8 @@ Definition step (s : state) (a : action) : option state :=
   | ACancel t => cancel s t
   | AResumeCancelled t => resume_cancelled s t
   | AResumeReadFail t => resume_read_fail s t
+  | AClose => Some (close s)
+  | ACloseOk => close_ok s
   end.
 
 Fixpoint run (s : state) (acts : list action) : option state :=
